@@ -120,7 +120,7 @@ def parse_call_args(message: str, params: Sequence[Tuple[str, str]]) -> Optional
         return None
     if set(out) != set(names):
         return None
-    return out
+    return {n: out[n] for n in names}  # parameter order: bodies are called positionally
 
 
 def _install_realfloats():
@@ -258,6 +258,8 @@ def run_conditions(jobs: List[Tuple[Cond, str]], nproc: int = 16, log=print) -> 
             task_qs[wid].put(None)
             current.pop(wid, None)
 
+    WORK.mkdir(exist_ok=True)
+    open(WORK / "progress.log", "w").close()
     for _ in range(nproc):
         spawn()
     done = 0
@@ -279,6 +281,8 @@ def run_conditions(jobs: List[Tuple[Cond, str]], nproc: int = 16, log=print) -> 
             current[wid] = (tid, now)
         elif typ == "done":
             tid, r = payload
+            with open(WORK / "progress.log", "a") as f:
+                f.write(f"{r.cpu_s:8.1f}s paths={r.paths:5d} {r.kind} {r.status} {r.name} {r.detail[:80]}\n")
             if tid not in out:
                 out[tid] = r
                 done += 1
